@@ -59,6 +59,8 @@ fn main() {
         "grid" => cases::grid(&gets(&m, "in", ""), &gets(&m, "out", "/tmp/icverif")),
         "langdump" => cases::langdump(&gets(&m, "out", "/tmp/icverif")),
         "f4" => cases::f4(&gets(&m, "in", ""), &gets(&m, "out", "/tmp/icverif")),
+        "numinput" => cases::numinput(&gets(&m, "in", ""), &gets(&m, "out", "/tmp/icverif")),
+        "numformat" => cases::numformat(&gets(&m, "in", ""), &gets(&m, "out", "/tmp/icverif")),
         "runprog" => histrec::run_program(&gets(&m, "in", ""), &gets(&m, "out", "/tmp/icverif")),
         "histbeh" => histrec::replay_behaviours(
             &gets(&m, "in", ""),
